@@ -329,6 +329,62 @@ def rule_resolution_not_memoised(ctx, rep, rule_id="R-RESOLUTION-NOT-MEMOISED"):
     rep.instance(rule_id, "codemodder.codemods.utils_mixin", "src/codemodder/codemods/utils_mixin.py:1", True, detail=f"{n_classes} classes scanned")
 
 
+CHILD_ATTRS = {"elements", "args", "body", "names", "targets", "comparisons", "decorators", "params", "items", "bases", "keywords", "values", "parts", "expressions"}
+REBUILD_EXEMPT = {
+    "core_codemods.fix_async_task_instantiation.FixAsyncTaskInstantiation._split_args":
+        "partitions the arguments into (loop, eager_start, others): the first two are returned separately and re-inserted or dropped by the documented edit",
+    "core_codemods.str_concat_in_seq_literal.StrConcatInSeqLiteral._process_elements":
+        "the ConcatenatedString branch appends one element per flattened part (at least two by construction)",
+}
+
+
+def rule_rebuild_keeps_all(ctx, rep, rule_id="R-REBUILD-KEEPS-ALL"):
+    rep.rule(
+        rule_id,
+        "in the classes of registered codemods, a loop that rebuilds a node's children element by element (iterates `<node>.args/.elements/...` "
+        "or an argument-list parameter, carries the loop element over in at least one branch and appends to a new list) appends on *every* "
+        "path of an iteration: a `continue` / missing else before the append silently drops children (`**mapping` entries, starred args) "
+        "that are no part of the documented edit; confirmed exceptions are listed with their reason",
+        min_instances=4,
+    )
+    from ..flow import FlowAnalysis, has_event
+
+    classes = set(ctx.registry.transformer_classes().keys())
+    closure = set()
+    for cq in classes:
+        closure |= {m for m in ctx.prog.mro(cq) if m in ctx.prog.classes}
+    n = 0
+    for cq in sorted(closure):
+        for m in ctx.prog.classes[cq].methods.values():
+            for lp in walk_no_nested(m.node):
+                if not isinstance(lp, ast.For) or not isinstance(lp.target, ast.Name):
+                    continue
+                it = lp.iter
+                if not ((isinstance(it, ast.Attribute) and it.attr in CHILD_ATTRS) or (isinstance(it, ast.Name) and it.id in m.params())):
+                    continue
+                lv = lp.target.id
+                apps = [c for c in ast.walk(lp) if isinstance(c, ast.Call) and isinstance(c.func, ast.Attribute) and c.func.attr == "append" and isinstance(c.func.value, ast.Name)]
+                if not apps:
+                    continue
+                carried = any(isinstance(a, ast.Assign) and isinstance(a.value, ast.Name) and a.value.id == lv for a in ast.walk(lp)) or any(
+                    c.args and isinstance(c.args[0], ast.Name) and c.args[0].id == lv for c in apps)
+                if not carried:
+                    continue
+                n += 1
+                ids = {id(c) for c in apps}
+                fa = FlowAnalysis(lp, lambda c, _i=ids: "EV:app" if id(c) in _i else None, body=lp.body)
+                ends = [e.state for e in fa.exits if e.kind == "end"] + [fa.state_at(s_) for s_ in ast.walk(lp) if isinstance(s_, ast.Continue) and fa.state_at(s_) is not None]
+                ok = bool(ends) and all(has_event(s_, "EV:app") for s_ in ends)
+                ex = REBUILD_EXEMPT.get(m.qname)
+                if not ok and ex:
+                    rep.instance(rule_id, m.qname, m.loc(lp), True, detail=f"for {lv} in {unparse(it)[:30]}", exempt=ex)
+                    continue
+                rep.check(rule_id, m.qname, m.loc(lp), ok, f"for {lv} in {unparse(it)[:30]}",
+                          f"an iteration of the rebuild loop over `{unparse(it)[:40]}` can end without appending anything: that child of the node disappears from the rewritten code")
+    if n < 4:
+        raise AnalysisError(f"only {n} element-wise rebuild loops found in codemod classes")
+
+
 def check(ctx, rep):
     rep.explanation = (
         "Sibling agreement between documentation and code: the tokens each hardening transformer introduces by name are recovered "
@@ -340,4 +396,5 @@ def check(ctx, rep):
     rule_helper_contract(ctx, rep)
     rule_args_info_fresh(ctx, rep)
     rule_resolution_not_memoised(ctx, rep)
+    rule_rebuild_keeps_all(ctx, rep)
     rep.not_covered += ["preservation of every token of arbitrary call shapes through libcst", "argument order for star-args"]
